@@ -36,6 +36,8 @@ pub fn pattern_matches_arguments(pattern: &Pattern, args: &Vec<Value>, env: &mut
       }
       Ok(true)
     }
+    // `*` matches anything, also a list of several arguments
+    Pattern::Wildcard => Ok(true),
     _ => Ok(false),
   }
 }
